@@ -342,7 +342,11 @@ def annotate_function(src, m, fn, relpath, contract_only):
         raise Drift('%s: %s: loop ordinals must be 1..%d' % (relpath, name, len(loops)))
     for idx, lp in enumerate(loops, 1):
         o = byord[idx]
-        if o['kind'] != lp['kind']:
+        if o['kind'] != lp['kind'] and {o['kind'], lp['kind']} == {'for', 'while'}:
+            # for <-> while: the loop contract goes to the same place (after the header's closing
+            # parenthesis) and speaks about the same program point (before the condition is evaluated)
+            frep['transforms'].append('loop %d: overlay says %s, source has %s (same contract position)' % (idx, o['kind'], lp['kind']))
+        elif o['kind'] != lp['kind']:
             raise Drift('%s: %s: loop %d is %s, overlay says %s'
                         % (relpath, name, idx, lp['kind'], o['kind']))
         if o['skip'] or not o['lines']:
